@@ -54,7 +54,7 @@ def body(ctx):
             raise tlc.TlcError('intended design violates %s for %s||%s' % (r.violations[0]['name'], x, y))
     # 3: random sessions
     n = 150 if ctx.quick else 3000
-    specs = [scen.gen_session(rng, i, big=(i % 10 == 0)) for i in range(n)]
+    specs = [scen.gen_session(rng, i, big=(i % 10 == 0), adversarial=(i % 2 == 1)) for i in range(n)]
     corpus = scen.run_corpus(specs)
     traces = [c[3] for c in corpus]
     ver, r = tlc.validate_traces('TraceEnv', traces)
